@@ -13,6 +13,14 @@ NOTE = ("Trusted base: clang 14 front end + CFG builder on the flags of the comp
 
 CLAIMS = {
     # pid: (technique, level text, design_ref)
+    "C06": ("three-valued abstract interpretation of every natural loop with a chunk cursor under cursor == NullChunk (navigation closure and predicate truth table derived from chunk.h/chunk.cpp bodies); guard analysis of every m_next/m_prev store; census of throwing conversions/regex constructions vs try blocks (AST ancestry); must-pass-through of a diagnostic before every non-zero exit; reachability of error exits from output_text",
+            "All 376 loops that advance a Chunk* cursor through the navigation family are shown escapable when the cursor is the null "
+            "chunk (the hang class of truncated/unbalanced input: ten such loops were found and fixed); the null chunk's links are "
+            "shown immutable, which is the lemma the walk analysis rests on; every regex construction from run-time text is inside "
+            "a try block and every std::sto* behind a format check; each of the ~120 non-zero exits has a documented status and a "
+            "diagnostic on every path to it; no error exit is reachable once output has started except two recorded findings. "
+            "General memory safety/UB and wall-time bounds are not decided - they need a whole-program value analysis that is out "
+            "of reach for this code base with the tools present.", "DESIGN.md section 4 C06"),
     "C08": ("who-may-call for the character writers + guard analysis of add_char's CR/LF arms; extraction of the (option, census) -> terminator table at the tail of tokenize(); backward/forward must-pass-through pairing of every line-break event of the tokenizer with a census increment; CR/LF sibling-comparison check (thorough)",
             "Every output character is shown to pass add_char, where LF becomes exactly cpd.newline and CR is dropped; cpd.newline "
             "is assigned only by an exhaustive three-row table at the end of tokenize(); each of the tokenizer's line-break events "
